@@ -102,6 +102,15 @@ fn oracle() -> Oracle {
                 }
             }
             Some(k) => match (r.items.get(k), o.items.get(k)) {
+                (Some(_), Some(oi)) if seen.deviation_call.is_some() && seen.deviation_call == o.calls_after.get(k + 1).map(|n| n.wrapping_sub(1)) && o.calls_after.get(k + 1) > o.calls_after.get(k) => {
+                    // the row whose answer broke the layout: an error item (C13's), nothing to compare
+                    st.witness("row_with_an_answer_of_the_wrong_length");
+                    if matches!(oi, ObsItem::Runtime(_)) {
+                        None
+                    } else {
+                        Some(format!("item {k}: expected an error item for an answer that departs from the first layout, got {}", oi.brief()))
+                    }
+                }
                 (Some(ri), Some(oi)) => {
                     if matches!(ri, RefItem::ExprErr(RefErr::NonNumeric(..))) {
                         st.witness("read_of_Z_or_X_is_an_error_item");
@@ -206,6 +215,24 @@ pub fn run(tier: Tier, seed: u64) -> i32 {
             cases.push(c);
         }
     }
+    // an answer with the wrong number of outputs makes its row an error, but it is still the latest
+    // output-reading call: what it returned for Q is what later expressions read
+    {
+        let l = |n: i64| Entry::Lit(n, Radix::Dec);
+        let rowq = || Stmt::Row(vec![Entry::Paren(name("Q")), l(0), Entry::X, Entry::X]);
+        let sigs = lists().remove(0);
+        let prog = Program { header: header.clone(), body: vec![rowq(), rowq(), Stmt::Let("a".into(), name("Q")), Stmt::Row(vec![Entry::Paren(name("a")), Entry::C, Entry::X, Entry::X]), rowq()] };
+        let normal = answers(&sigs, None, &[V::Num(0), V::Num(1)]);
+        let mut menu = normal.clone();
+        menu.push(MenuItem { step: crate::driver::Step::Ans(vec![("Q".into(), V::Num(5))]), deviation: true, label: "only Q (=5)".into() });
+        menu.push(MenuItem { step: crate::driver::Step::Ans(vec![("Q".into(), V::Num(6)), ("DONE".into(), V::Num(0)), ("Q".into(), V::Num(6))]), deviation: true, label: "Q=6 DONE Q=6".into() });
+        for ov in [true, false] {
+            let mut c = Case::new(&format!("answer with the wrong number of outputs, caller carries on ({})", if ov { "Ov" } else { "Fw" }), prog.clone(), sigs.clone(), ov, normal.clone(), menu.clone(), 12);
+            c.dev_budget = 1;
+            c.continue_after_call_errors = true;
+            cases.push(c);
+        }
+    }
     let ncases = cases.len();
     let res = explore(cases, oracle(), true, &deadline);
     let mut st = res.stats;
@@ -248,7 +275,7 @@ pub fn run(tier: Tier, seed: u64) -> i32 {
             "state merging is sound if equal keys imply equal futures (DESIGN section 5.1); the thorough tier re-explores a slice without merging and requires its key pairs to be a subset".into(),
             "mismatches on programs whose loop/repeat bound is read from the device are attributed to C01 when the subject is equally wrong on the program with the literal bound".into(),
         ],
-        required_witnesses: vec!["read_output_not_supplied_constructor_fails", "read_of_Z_or_X_is_an_error_item", "c_expansion", "loop_bound_computed", "while_ran_2plus", "shadow"],
+        required_witnesses: vec!["read_output_not_supplied_constructor_fails", "read_of_Z_or_X_is_an_error_item", "c_expansion", "loop_bound_computed", "while_ran_2plus", "shadow", "row_with_an_answer_of_the_wrong_length"],
         exhaustive_note: "every reachable state up to the depth bound for every case".into(),
         e1: true,
     };
